@@ -360,6 +360,14 @@ def run_generated(case):
             tn, mk, want = [t for t in TIMES if t[0] == case['time']][0]
             created = mk()
         k = pgpy.PGPKey.new(a, s, created=created)
+        if case.get('leading_zero'):
+            # a key whose fingerprint begins with a zero octet (one key in 256): generate until one turns up
+            for _ in range(20000):
+                if str(k.fingerprint).startswith('00'):
+                    break
+                k = pgpy.PGPKey.new(a, s, created=created)
+            else:
+                ck.skipped.append('no key with a fingerprint starting with 00 in 20000 draws')
         k.add_uid(pgpy.PGPUID.new('Fp Test', email='fp@x'), usage={KeyFlags.Certify, KeyFlags.Sign}, hashes=[HashAlgorithm.SHA256],
                   ciphers=[SymmetricKeyAlgorithm.AES256], compression=[CompressionAlgorithm.Uncompressed])
         # the signing subkey was generated a day BEFORE the key it is attached to (where the instant allows): becoming a subkey changes
@@ -399,17 +407,71 @@ def run_generated(case):
         return {'label': ck.label, 'skipped': ck.skipped, 'n': ck.n, 'fail': ck.fail + ['harness error: %s: %s @ %s' % (type(ex).__name__, ex, traceback.format_exc().splitlines()[-3].strip())], 'keys': 0}
 
 
+FOREIGN_ENCODINGS = ['bit count of the exponent rounded up to a multiple of eight', 'exponent written with a leading zero octet',
+                     'bit count of the modulus rounded up and a leading zero octet']
+
+
+def run_foreign_encoding(variant):
+    """a public key as ANOTHER encoder may write it: the integers of the key packet are not in the form PGPy writes (RFC 4880 3.2 asks for
+    exact bit counts; real encoders round up or pad). Whatever PGPy does with such a packet - keep the octets or re-encode them -, the
+    fingerprint it reports is SHA-1 over the packet body AS IT EXPORTS IT, for the loaded key, its copy and the re-imported export."""
+    ck = Checker({'foreign_encoding': variant})
+    ck.passphrase = None
+    try:
+        with open(os.path.join(TESTDATA, 'keys', 'rsa.1.pub.asc'), 'rb') as fh:
+            label, octets = dearmor_all(fh.read())[0]
+        pk = indep.packets(octets)
+        body = pk[0][1]
+        assert pk[0][0] == 6 and body[0] == 4 and body[5] in (1, 2, 3)
+
+        def mpis(b):
+            out, pos = [], 0
+            while pos < len(b):
+                bits = int.from_bytes(b[pos:pos + 2], 'big')
+                n = (bits + 7) // 8
+                out.append(int.from_bytes(b[pos + 2:pos + 2 + n], 'big'))
+                pos += 2 + n
+            return out
+        n_, e_ = mpis(body[6:])
+        enc = lambda v, bits=None, pad=0: ((bits if bits is not None else v.bit_length()) + 8 * pad).to_bytes(2, 'big') + bytes(pad) + v.to_bytes(((bits if bits is not None else v.bit_length()) + 7) // 8, 'big')
+        up = lambda v: (v.bit_length() + 7) // 8 * 8
+        if variant == FOREIGN_ENCODINGS[0]:
+            mat = enc(n_) + enc(e_, bits=up(e_))
+        elif variant == FOREIGN_ENCODINGS[1]:
+            mat = enc(n_) + enc(e_, pad=1)
+        else:
+            mat = enc(n_, bits=up(n_), pad=1) + enc(e_)
+        nb = body[:6] + mat
+        blob = bytes([0xC6, 0xFF]) + len(nb).to_bytes(4, 'big') + nb + b''.join(r for t, b, r in pk[1:] if t == 13)[:0]
+        try:
+            key, _ = pgpy.PGPKey.from_blob(blob)
+        except Exception as ex:
+            return {'label': ck.label, 'skipped': ['PGPy does not load it: %s: %s' % (type(ex).__name__, str(ex)[:60])], 'n': 0, 'fail': [], 'keys': 0}
+        ck.against_export('loaded from the foreign encoding', key)
+        import copy as _copy
+        ck.against_export('copy of the loaded key', _copy.copy(key))
+        again, _ = pgpy.PGPKey.from_blob(bytes(key))
+        ck.against_export('export of the loaded key, loaded again', again)
+        ck.eq('fingerprint after export and import', str(again.fingerprint), str(key.fingerprint))
+        return {'label': ck.label, 'skipped': ck.skipped, 'n': ck.n, 'fail': ck.fail, 'keys': 3, 'fprs': []}
+    except Exception as ex:
+        return {'label': ck.label, 'skipped': ck.skipped, 'n': ck.n, 'fail': ck.fail + ['harness error: %s: %s' % (type(ex).__name__, ex)], 'keys': 0}
+
+
 def _dispatch(task):
     kind, arg = task
+    if kind == 'foreign-encoding':
+        return [run_foreign_encoding(arg)]
     return run_fixture(arg) if kind == 'fixture' else [run_generated(arg)]
 
 
 def component(tier='quick', seed=0, known=()):
     t0 = time.time()
     tasks = [('generated', c) for c in gen_cases(tier, seed)]
+    tasks += [('generated', dict(c, leading_zero=True)) for c in [t[1] for t in tasks if t[1]['alg'] == 'EdDSA/Ed25519'][:2]]
     # heavy (RSA/DSA generation) first
     tasks.sort(key=lambda t: 0 if t[1]['alg'] in ('RSA/2048', 'DSA/2048') else 1)
-    tasks += [('fixture', p) for p in fixture_files()]
+    tasks += [('fixture', p) for p in fixture_files()] + [('foreign-encoding', v) for v in FOREIGN_ENCODINGS]
     ctx = multiprocessing.get_context('fork')
     with ctx.Pool(16, maxtasksperchild=8) as pool:
         parts = pool.map(_dispatch, tasks, chunksize=1)
